@@ -313,6 +313,21 @@ func (w *World) onApplied(n *Node, e *blockEntry, au consensus.ApplyUpdate, firs
 				created[d.SiacoinElement.ID] = true
 			}
 		}
+		// the order of amounts (every balance and limit rule compares through it): by
+		// definition the order of the numbers, also for amounts that agree in their
+		// upper word and lie far apart in the lower
+		for i, d := range au.SiacoinElementDiffs() {
+			if i > 3 {
+				break
+			}
+			v := d.SiacoinElement.SiacoinOutput.Value
+			for _, o := range []types.Currency{types.NewCurrency(v.Lo^(1<<63), v.Hi), types.NewCurrency(v.Lo+(1<<63)+12345, v.Hi), types.NewCurrency(^v.Lo, v.Hi), types.NewCurrency(v.Lo, v.Hi+1)} {
+				if got, want := v.Cmp(o), v.Big().Cmp(o.Big()); got != want || o.Cmp(v) != -want {
+					w.violate("C01", "currency-order", fmt.Sprintf("Currency.Cmp(%v, %v) = %d (and %d the other way round); as numbers they compare %d", v.ExactString(), o.ExactString(), got, o.Cmp(v), want))
+				}
+			}
+			w.stats.Inc("probe.c01.currency-order")
+		}
 		for _, d := range au.FileContractElementDiffs() {
 			if !d.Resolved {
 				continue
